@@ -210,6 +210,7 @@ class Interp:
             self._decided = {}
             self.depth = 0
             self.call_stack = []
+            self.steps = 0
             try:
                 val = fn(self, *a, **kw)
                 out = Outcome('return', val, self.conditions, self.events)
